@@ -188,6 +188,10 @@ def gen_history(rng, tier='quick', p_unresolvable=0.0):
             else:
                 op['repeat'] = rng.choice([0, 0, 1, 1, 2])
                 stage[i] = 'finished'
+                if rng.random() < 0.15:
+                    # the network service is restarted and is re-processing this container's request at the very
+                    # moment the cleanup service finishes the container
+                    op['during_replay'] = True
             ops.append(op)
         elif done:
             ops.append({'op': 'refinish', 'c': rng.choice(done),
